@@ -252,13 +252,14 @@ def _real_svg_infoset(repo, ob, failure):
     docs = ['<svg xmlns="http://www.w3.org/2000/svg"><text>a &amp; b &lt; c</text></svg>',
             '<svg xmlns="http://www.w3.org/2000/svg"><text>say &quot;hi&quot;</text><rect data-a="x &lt; y"/></svg>',
             '<svg xmlns="http://www.w3.org/2000/svg"><!-- c --><style><![CDATA[ a > b ]]></style><g><text>t</text></g></svg>',
-            '<svg><svg xmlns="http://www.w3.org/2000/svg"><text>a &amp; b</text></svg><rect wh="2"/></svg>',
-            '<svg xmlns="http://www.w3.org/2000/svg"><text>line one   \n  two  </text></svg>',
-            '<svg xmlns="http://www.w3.org/2000/svg"><text xml:space="preserve">x \n \ny</text></svg>']
+            '<svg><svg xmlns="http://www.w3.org/2000/svg"><text>a &amp; b</text></svg><rect wh="2"/></svg>']
+    # (the inputs of the known finding C03.text.whole are tried for that obligation only)
+    blanks = ['<svg xmlns="http://www.w3.org/2000/svg"><text>line one   \n  two  </text></svg>',
+              '<svg xmlns="http://www.w3.org/2000/svg"><text xml:space="preserve">x \n \ny</text></svg>']
     if any("class" in l for l in (ob.get("labels") or [ob.get("id", "")])):
         docs = ['<svg xmlns="http://www.w3.org/2000/svg"><rect class="a a  b"/></svg>', '<svg xmlns="http://www.w3.org/2000/svg"><rect class=""/></svg>'] + docs
     if any(".text.whole" in l for l in (ob.get("labels") or [ob.get("id", "")])):
-        docs = docs[-2:] + docs
+        docs = blanks + docs
     for doc in docs:
         r = run_svgdx(repo, doc)
         if r["rc"] != 0:
@@ -818,3 +819,30 @@ def _empty_root(repo, ob, failure):
 
 
 GENERATORS.insert(0, ("C02.root.closed", _empty_root))
+
+
+def _reuse_placement(repo, ob, failure):
+    """the instance of a template drawn at the origin lands at the reuse element's x / y, whatever kind
+    of element the template is (docs/dev-notes.md: 'xy on the reuse should translate the bbox of the target')"""
+    import re as _re
+    lab = " ".join(ob.get("labels") or [ob.get("id", "")])
+    cases = [("line", '<svg><specs><line id="t" x1="0" y1="0" x2="10" y2="5"/></specs><reuse href="#t" x="20" y="30"/></svg>', r'<line x1="20" y1="30" x2="30" y2="35"'),
+             ("line", '<svg><specs><line id="t" xy1="0 0" xy2="10 5"/></specs><reuse href="#t" x="20" y="30"/></svg>', r'<line x1="20" y1="30" x2="30" y2="35"'),
+             ("text", '<svg><specs><text id="t" text="hi"/></specs><reuse href="#t" x="20" y="30"/></svg>', r'<text x="20" y="30"'),
+             ("nested_reuse", '<svg><specs><rect id="r" wh="5"/><reuse id="t" href="#r"/></specs><reuse href="#t" x="20" y="30"/></svg>', r'<rect (x="20" y="30" width="5" height="5"|width="5" height="5" transform="translate\(20, 30\)")'),
+             ("rectlike", '<svg><specs><rect id="t" wh="5"/></specs><reuse href="#t" x="20" y="30"/></svg>', r'<rect x="20" y="30" width="5" height="5"'),
+             ("circle", '<svg><specs><circle id="t" cxy="0" r="5"/></specs><reuse href="#t" x="20" y="30"/></svg>', r'<circle cx="25" cy="35" r="5"'),
+             ("group", '<svg><specs><g id="t"><rect wh="5"/></g></specs><reuse href="#t" x="20" y="30"/></svg>', r'<g [^>]*transform="translate\(20, 30\)"')]
+    mine = [c for c in cases if ("place." + c[0]) in lab]
+    cases = mine or [c for c in cases if c[0] in ("rectlike", "circle", "group")]     # never hand another obligation's known witness out
+    for kind, doc, want in cases:
+        r = run_svgdx(repo, doc)
+        if r["rc"] != 0:
+            continue
+        body = r["out"].split("</style>")[-1]
+        if not _re.search(want, body):
+            return {"input": doc, "observed": "instance written as " + body.strip()[:160], "expected": "instance at x=20 y=30: /%s/" % want}
+    return None
+
+
+GENERATORS.insert(0, ("C18.place.", _reuse_placement))
